@@ -1465,8 +1465,15 @@ class EvolveAppTask(BaseEvolutionTask):
         app_prefix = self.app.__name__.split('.')[0]
 
         for mutation in self._mutations:
+            mutation_str = '%s' % mutation
+
             mutation_types.add(type(mutation).__name__)
-            mutation_lines.append('    %s,' % mutation)
+            mutation_lines.append('    %s,' % mutation_str)
+
+            if 'models.' in mutation_str:
+                # The mutation references something in django.db.models
+                # (a field type, constraint or index class, Q, F, ...).
+                imports.add('from django.db import models')
 
             if isinstance(mutation, AddField):
                 field_module = mutation.field_type.__module__
